@@ -27,3 +27,20 @@ add("C06", "E1", "model_checking",
     "metadata exists and parses (independent reader).",
     "Same engine assumptions as C01; grace 1 h vs. millisecond virtual runs (the property's proviso).",
     "DESIGN.md 3 C06")
+add("C08", "E1", "model_checking",
+    "stateless interleaving exploration at S3-request granularity with lease-lapse deviations (clock jumps, process pauses)",
+    "Every interleaving of 2 committers (plus their heartbeat threads) at S3-request granularity on the real code, with "
+    "the real CAS lock and with a lock granting everyone; unbounded without time deviations, and under stated preemption "
+    "bounds with clock jumps past the lease / process pauses inserted at every point. Oracles: the CAS replaced the pointer "
+    "naming the validated version, serializability of acknowledged commits, no outcome other than success or a retryable conflict.",
+    "In-memory S3 with AWS conditional-write semantics; the validated version is observed by a harness-side wrapper of "
+    "MetadataManager._read_metadata_file inside commit; a delayed in-flight PUT is modelled as descheduling at the request.",
+    "DESIGN.md 3 C08")
+add("C20", "E2/E4", "model_checking",
+    "explicit-state BFS over storage-operation sequences on both backends + exhaustive seek/read programs + k-failure fault sequences",
+    "All operation sequences up to a depth over a 6-key space are applied step by step to the local backend and to the S3 "
+    "backend (with and without prefix) over an in-memory S3, observations compared pairwise; all seek/read programs up to a "
+    "length bound on boundary-size objects against a local file; every k-consecutive-transient-failure and permanent-error "
+    "placement per request. States are store contents; every transition runs on the real backends.",
+    "In-memory S3 is strongly consistent; documented asymmetries (directories as keys) are checked against the S3 backend's own spec.",
+    "DESIGN.md 3 C20")
